@@ -102,7 +102,7 @@ impl TcpListener {
     }
 
     /// Close the socket. If the returned future is dropped before polling, the
-    /// socket won't be closed.
+    /// socket is dropped like any other handle.
     ///
     /// See [`TcpStream::close`] for more details.
     ///
@@ -285,7 +285,7 @@ impl TcpStream {
     }
 
     /// Close the socket. If the returned future is dropped before polling, the
-    /// socket won't be closed.
+    /// socket is dropped like any other handle.
     ///
     /// As the socket is clonable, users can call `close` on a clone, but the
     /// future will never complete until all clones are dropped. Some
